@@ -407,6 +407,25 @@ func (h *Hist) randomEvent() string {
 		}
 		return "cordon-all"
 	}
+	if len(h.cfgs) > 1 && len(h.pods) > 0 && r.chance(map[bool]int{true: 12, false: 3}[focus == "multi"]) {
+		// a pod is deleted and re-created under the same namespace/name within the scan interval, now selecting another
+		// group (or none): the object behind the name changes shape, its identity as the listers see it does not
+		p := h.pods[r.intn(len(h.pods))]
+		if len(p.OwnerKinds) == 0 && !strings.HasPrefix(p.Name, "odd") {
+			other := h.cfgs[r.intn(len(h.cfgs))]
+			p.Affinity = nil
+			if other.Name == "default" {
+				p.NodeSelector = map[string]string{}
+			} else if r.chance(70) {
+				p.NodeSelector = map[string]string{"grp": other.LabelValue}
+			} else {
+				p.NodeSelector = map[string]string{}
+				p.Affinity = &v1.Affinity{NodeAffinity: &v1.NodeAffinity{RequiredDuringSchedulingIgnoredDuringExecution: &v1.NodeSelector{
+					NodeSelectorTerms: []v1.NodeSelectorTerm{{MatchExpressions: []v1.NodeSelectorRequirement{{Key: "grp", Operator: v1.NodeSelectorOpIn, Values: []string{other.LabelValue}}}}}}}}
+			}
+			return "pod-moves"
+		}
+	}
 	if focus == "cooldown" && r.chance(45) {
 		ev = r.pickI(10, 11, 12, 21, 4, 5, 6) // advances around the cool-down, load changes, taints and cordons inside the window
 	}
@@ -631,6 +650,11 @@ func (h *Hist) runHistory(scans int) (bool, string) {
 			}
 			for i := 0; i < nf; i++ {
 				faults[h.r.intn(14)] = true
+			}
+			if h.r.chance(30) {
+				// two consecutive calls fail (the GET and the UPDATE of the same node, say)
+				k := h.r.rng(1, 10)
+				faults[k], faults[k+1] = true, true
 			}
 			if h.r.chance(10) {
 				faults[0] = true // the refresh itself (costs 5 s of real sleep per retry)
